@@ -22,7 +22,11 @@ open Modbus.Model Modbus.Model.ClientLock
 
 structure ConcOp where
   client : String
+  /-- the calls the model knows -/
   progs : List (List Call)
+  /-- the programs as run: `none` = a Connect that fails (`x`): it takes and releases the lock and changes nothing, the
+  transport sees nothing of it, so the replay of the transport's log skips it -/
+  full : List (List (Option Call))
 
 def parseCall (s : String) : Option Call :=
   if s == "o" then some .connect
@@ -33,8 +37,9 @@ def parseCall (s : String) : Option Call :=
 def parseConcOp (ts : List String) : Option ConcOp :=
   match ts with
   | ["conc", cl, ps] => do
-    let progs ← (ps.splitOn "|").mapM fun p => if p == "-" then some [] else (p.splitOn ".").mapM parseCall
-    pure { client := cl, progs }
+    let full ← (ps.splitOn "|").mapM fun p => if p == "-" then some [] else
+      (p.splitOn ".").mapM fun c => if c == "x" then some none else (parseCall c).map some
+    pure { client := cl, progs := full.map (·.filterMap id), full }
   | _ => none
 
 def nchRule (id : Nat) : Nat := id % 3
@@ -71,10 +76,17 @@ def outcomeStr : Outcome → String
 
 def ConcOp.init (op : ConcOp) : St := ClientLock.init (fun t => op.progs.getD t []) true
 
+/-- the results of the model's calls with `xf` put back where the failing connects were -/
+def mergeResults : List (Option Call) → List String → List String
+  | [], _ => []
+  | none :: rest, ds => "xf" :: mergeResults rest ds
+  | some _ :: rest, d :: ds => d :: mergeResults rest ds
+  | some _ :: _, [] => []
+
 def resultsStr (op : ConcOp) (s : St) : String :=
   "|".intercalate ((List.range op.progs.length).map fun t =>
-    let d := (s.th t).done
-    if d.isEmpty then "-" else ".".intercalate (d.map fun x => outcomeStr x.2))
+    let d := mergeResults (op.full.getD t []) ((s.th t).done.map fun x => outcomeStr x.2)
+    if d.isEmpty then "-" else ".".intercalate d)
 
 /-- replay one observed event: the model must emit exactly this event as the thread's next visible step -/
 def replayEv (s : St) (e : WireEv) : Option St :=
@@ -121,14 +133,15 @@ def judgeC14 (op : ConcOp) (out : String) : Expect :=
   | some ws =>
     let serial := wireRun none ws == some none
     let perThread := res.splitOn "|"
-    let resOk := perThread.length == op.progs.length &&
-      (List.zip op.progs perThread).all fun (prog, r) =>
+    let resOk := perThread.length == op.full.length &&
+      (List.zip op.full perThread).all fun (prog, r) =>
         let rs := if r == "-" then [] else r.splitOn "."
         rs.length == prog.length && (List.zip prog rs).all fun (c, o) =>
           match c with
-          | .doReq id => o == s!"r{id}" || o == "w"
-          | .connect => o == "o"
-          | .close => o == "c"
+          | some (.doReq id) => o == s!"r{id}" || o == "w"
+          | some .connect => o == "o"
+          | some .close => o == "c"
+          | none => o == "xf"       -- the connect failed, and nobody else noticed
     .pred (serial && resOk)
       "request frames must never be interleaved on the wire and each caller must receive the reply to its own request"
 
